@@ -208,6 +208,12 @@ class Rdv (object):
     self.api("call_when_ready",
              lambda: self.core.call_when_ready(call, d, args=(w["id"],),
                                                kw={"z": 1}, **kwn))
+    # the caller goes on using its list for something else: what the waiter
+    # waits for is what was named at the time of the call
+    if isinstance(d, list):
+      if w["id"] % 2: d.append("never_registered_%d" % w["id"])
+      else: del d[:]
+      self.rep.count("dependency_lists_mutated_after_declaring")
 
   def do_ltd (self, comps, extra, attrs):
     rdv = self
